@@ -230,6 +230,7 @@ pub fn verify_trace(rec: &CallRec, toks: &mut Toks, arith: bool, out: &mut Vec<V
         if !ambiguous {
             out.push(json!({"ev": "VMSM", "nstat": ev.stat.len(), "ntable": ev.table.len(), "ndyn_s": ev.dyn_s.len(), "ndyn_p": ev.dyn_p.len(),
                 "stat": stat, "obs": obs.iter().map(|(c, sc)| json!([toks.tok(c), sl(sc)])).collect::<Vec<_>>(), "arith": true,
+                "idtok": toks.tok(&{ use curve25519_dalek::traits::Identity; FP::identity().compress().0 }),
                 "out_zero": ev.out.is_zero()}));
         } else {
             out.push(json!({"ev": "VSkip", "why": "the B point of a member occurs in another role (identical proofs in one batch)"}));
@@ -238,7 +239,7 @@ pub fn verify_trace(rec: &CallRec, toks: &mut Toks, arith: bool, out: &mut Vec<V
         // token mode: only the verdict-relevant part of the final check
         let ev = mixed[0];
         out.push(json!({"ev": "VMSM", "nstat": ev.stat.len(), "ntable": ev.table.len(), "ndyn_s": ev.dyn_s.len(), "ndyn_p": ev.dyn_p.len(),
-            "stat": [], "obs": [], "arith": false, "out_zero": ev.out.is_zero()}));
+            "stat": [], "obs": [], "arith": false, "idtok": 0, "out_zero": ev.out.is_zero()}));
     } else {
         out.push(json!({"ev": "VNoMSM", "count": mixed.len(), "decompress_failures": ndec_fail}));
     }
